@@ -104,6 +104,7 @@ func init() {
 			a.smpOrder("L.smp-order")
 			a.tlvLengths("V.tlv-length")
 			a.keyFileGrammar("L.keyfile")
+			a.cipherBuffers("K.cipher-buffers")
 			a.narrowings("U.narrow", true)
 		})
 }
